@@ -63,7 +63,7 @@ pub mod runtime {
                     //@KCUT_ARM crates/lib/mimium-lang/src/runtime/vm.rs :: arm Instruction::SetState as arm_set_state(&mut self, src: Reg, size: TypeSize) in method Machine::execute
                     //@KCUT_ARM crates/lib/mimium-lang/src/runtime/vm.rs :: arm Instruction::PushStatePos as arm_push_state_pos(&mut self, v: StateOffset) in method Machine::execute
                     //@KCUT_ARM crates/lib/mimium-lang/src/runtime/vm.rs :: arm Instruction::PopStatePos as arm_pop_state_pos(&mut self, v: StateOffset) in method Machine::execute
-                    //@KCUT_ARM crates/lib/mimium-lang/src/runtime/vm.rs :: arm Instruction::Delay as arm_delay(&mut self, dst: Reg, src: Reg, time: Reg, func_i: usize) in method Machine::execute
+                    //@KCUT_ARM crates/lib/mimium-lang/src/runtime/vm.rs :: arm Instruction::Delay as arm_delay(&mut self, dst: Reg, src: Reg, time: Reg, delay_idx: u8, func_i: usize) in method Machine::execute
                     //@KCUT_ARM crates/lib/mimium-lang/src/runtime/vm.rs :: arm Instruction::Mem as arm_mem(&mut self, dst: Reg, src: Reg) in method Machine::execute
                 }
                 #[cfg(kani)]
